@@ -130,7 +130,12 @@ def _done_like(c, result_expr, extra_params=()):
     c.modifies("Future.state", "Future.nres", "Future.res")
 
 
-_COORD = ("RecordMetadata(self._tp.topic, self._tp.partition, self._tp, base_offset + self._msg_futures[j][1].offset,"
+# "a successful result names the ... offset at which that very record sits": the record's offset is the batch's base
+# offset plus its position in the batch; when the broker reports no base offset (-1: DuplicateSequenceNumber, the
+# broker no longer knows where the first copy went) no record may be given a made-up offset: all are -1 (unknown),
+# as in the Java client's RecordMetadata
+_COORD = ("RecordMetadata(self._tp.topic, self._tp.partition, self._tp,"
+          " ite(base_offset == -1, -1, base_offset + self._msg_futures[j][1].offset),"
           " ite({ts} == -1, some_int(self._msg_futures[j][1].timestamp), {ts}),"
           " ite({ts} == -1, 0, 1), log_start_offset)")
 TRUE_COORD = _COORD.format(ts="timestamp")
@@ -172,20 +177,23 @@ from aiokafka.producer.message_accumulator import MessageBatch, BatchBuilder
 from aiokafka.structs import TopicPartition
 async def main():
     bad = None
-    for broker_ts in (-1, 777):
-        b = MessageBatch(TopicPartition("t", 3), BatchBuilder(1 << 20, 0), 100, 0)
-        futs = [b.append(b"k%d" % i, b"v", ts) for i, ts in enumerate((1000, 2000, 3000))]
-        b.done(100, broker_ts, 5)
-        for i, (f, ts) in enumerate(zip(futs, (1000, 2000, 3000))):
-            md = f.result()
-            want_ts = ts if broker_ts == -1 else broker_ts
-            if (md.offset, md.timestamp, md.timestamp_type, md.partition, md.topic) != (100 + i, want_ts, 0 if broker_ts == -1 else 1, 3, "t"):
-                bad = (broker_ts, i, md, want_ts); break
+    for base in (100, -1):                  # -1: the broker does not know the offset (DuplicateSequenceNumber)
+        for broker_ts in (-1, 777):
+            b = MessageBatch(TopicPartition("t", 3), BatchBuilder(1 << 20, 0), 100, 0)
+            futs = [b.append(b"k%d" % i, b"v", ts) for i, ts in enumerate((1000, 2000, 3000))]
+            b.done(base, broker_ts, 5)
+            for i, (f, ts) in enumerate(zip(futs, (1000, 2000, 3000))):
+                md = f.result()
+                want_ts = ts if broker_ts == -1 else broker_ts
+                want_off = base + i if base != -1 else -1
+                if (md.offset, md.timestamp, md.timestamp_type, md.partition, md.topic) != (want_off, want_ts, 0 if broker_ts == -1 else 1, 3, "t"):
+                    bad = (base, broker_ts, i, md, want_off, want_ts); break
+            if bad: break
         if bad: break
     return bad
 bad = asyncio.run(main())
 VIOLATED = bad is not None
-DETAIL = "broker timestamp %r: record %d resolved with %r, its own timestamp is %r" % bad if bad else "three records resolve with their own coordinates"
+DETAIL = "done(base_offset=%r, timestamp=%r): record %d resolved with %r, its offset is %r and its timestamp %r" % bad if bad else "three records resolve with their own coordinates"
 '''
 
 
@@ -385,6 +393,42 @@ def _(c):
     c.ensures("no-longer-pending", "batch not in self._pending_batches and forall(BATCH, lambda b: implies(b != batch,"
               " (b in self._pending_batches) == (b in old(self._pending_batches))))")
     c.ensures("drain-waiter-re-armed", "not batch._drain_waiter.done()")
+    c.replay_fn = lambda model, ob=None: {"script": _REENQUEUE_SCRIPT}
+
+
+# replay: a batch in flight fails retriably while a newer batch of the same partition is queued; after reenqueue() the
+# retried batch must be drained first again
+_REENQUEUE_SCRIPT = '''
+import asyncio, logging
+logging.disable(logging.CRITICAL)
+from aiokafka.producer.message_accumulator import MessageAccumulator
+from aiokafka.structs import TopicPartition
+
+class Cluster:
+    def leader_for_partition(self, tp):
+        return 1
+
+async def main():
+    tp = TopicPartition("t", 0)
+    acc = MessageAccumulator(Cluster(), 1 << 16, 0, 1000)
+    await acc.add_message(tp, b"k", b"m1", 1)
+    nodes, _ = acc.drain_by_nodes(ignore_nodes=[])
+    b1 = nodes[1][tp]
+    await acc.add_message(tp, b"k", b"m2", 1)          # a send() lands while b1 is in flight
+    b2 = acc._batches[tp][0]
+    acc.reenqueue(b1)                                  # b1 failed with a retriable error
+    order = list(acc._batches[tp])
+    nodes, _ = acc.drain_by_nodes(ignore_nodes=[])
+    first = nodes[1][tp]
+    for b in (b1, b2):
+        b.done_noack()
+    if order != [b1, b2] or first is not b1:
+        return "after reenqueue() of the failed batch the queue is %s and the next drain takes %s: the newer batch overtakes the retry" % (
+            ["b1" if b is b1 else "b2" for b in order], "b1" if first is b1 else "b2")
+    return None
+bad = asyncio.run(main())
+VIOLATED = bad is not None; DETAIL = repr(bad)
+'''
 
 
 @specfn("kafka_inc")
